@@ -13,10 +13,10 @@ import (
 	"path/filepath"
 	"regexp"
 	"runtime"
-	"runtime/debug"
 	"sort"
 	"strings"
 	"testing"
+	"time"
 
 	"github.com/influxdata/influxdb/v2/models"
 	"github.com/influxdata/influxdb/v2/tsdb"
@@ -219,9 +219,14 @@ func forEachExpr(thorough bool, fn func(n *Node)) {
 	}
 	// depth 1: L op R over the 48 key-first leaves (both operand orders arise since L,R range independently).
 	cl := canonLeaves()
+	// quick tier: unordered pairs {L,R} (incl. L=R), written L op R with L not after R in leaf order; ordered pairs
+	// are covered over the core leaves below. thorough tier: all ordered pairs.
 	for _, op := range []string{"AND", "OR"} {
-		for _, l := range cl {
-			for _, r := range cl {
+		for i, l := range cl {
+			for j, r := range cl {
+				if !thorough && j < i {
+					continue
+				}
 				fn(&Node{Op: op, L: lf(l), R: lf(r)})
 			}
 		}
@@ -356,7 +361,8 @@ func (w *world) close() {
 
 // storage variants of the index
 const (
-	varLog   = "log"   // all series in the active TSI log file (L0)
+	varLog   = "log"   // single-partition index, all series in the active TSI log file (L0)
+	varLog8  = "log8"  // default 8 partitions, all series in the active TSI log files (L0)
 	varTSI   = "tsi"   // single-partition index, series inserted in two batches with a 1-byte log limit: compacted into .tsi index files
 	varSplit = "split" // IndexSet of two indexes (two shards of the database) each holding every other series
 )
@@ -426,16 +432,22 @@ func (w *world) open(mask int, variant string) (*opened, error) {
 		return idx.CreateSeriesListIfNotExists(ks, names, tags)
 	}
 	o.is.SeriesFile = w.sfile
+	one := func(i *tsi1.Index) { i.PartitionN = 1 }
 	var err error
 	switch variant {
 	case varLog:
+		var idx *tsi1.Index
+		if idx, err = mk("", one); err == nil {
+			err = add(idx, all)
+		}
+	case varLog8:
 		var idx *tsi1.Index
 		if idx, err = mk(""); err == nil {
 			err = add(idx, all)
 		}
 	case varTSI:
 		var idx *tsi1.Index
-		if idx, err = mk("", tsi1.WithMaximumLogFileSize(1), func(i *tsi1.Index) { i.PartitionN = 1 }); err == nil {
+		if idx, err = mk("", tsi1.WithMaximumLogFileSize(1), one); err == nil {
 			h := (len(all) + 1) / 2
 			if err = add(idx, all[:h]); err == nil {
 				idx.Compact()
@@ -754,10 +766,10 @@ func TestCheck(t *testing.T) {
 	vlib.Main(t, &vlib.Check{
 		ID: "C15", Level: "exploration",
 		Rule: "expressions: depth 0 = all 66 leaves `k op lit` (k∈{a,b,missing}; =,!= × lit∈{'x','y',''} × both operand orders; =~,!~ × regex∈{/x/,/^$/,/.*/,/x|y/,/^x/}) bare and parenthesised; " +
-			"depth 1 = L AND|OR R over all 48×48 key-first leaves + literal-first / parenthesised operands over 24 core leaves; " +
+			"depth 1 = L AND|OR R over the 48 key-first leaves (quick: all 1176 unordered pairs incl. L=R; thorough: all 48×48 ordered pairs) + literal-first operands (12×24) and parenthesised operands (all 24×24 ordered pairs) over 24 core leaves; " +
 			"depth 2 (thorough) = A op1 B op2 C over 16 leaves (key a: all 8 code paths =lit,!=lit,='',!='',=~/^x/,!~/^x/,=~/^$/,!~/^$/; 4 each for b and missing) × op1,op2∈{AND,OR} × {no parens (precedence), (A op1 B) op2 C, A op1 (B op2 C)}; " +
 			"× every one of the 2^9 subsets of the 9 series of measurement m over tags a,b∈{x,y,absent} (+5 fixed series of a noise measurement n) stored in a real tsi1 index, " +
-			"in storage variants log (8 partitions, L0 log files), tsi (1 partition, compacted .tsi index files; quick: every 8th set, thorough: all), split (thorough: IndexSet of 2 indexes, every 4th set); " +
+			"in storage variants log (1 partition, L0 log file; all sets), log8 (default 8 partitions; quick every 8th set, thorough every 4th), tsi (1 partition, compacted .tsi index files; quick every 8th set, thorough all), split (thorough: IndexSet of two 8-partition indexes, every 4th set); " +
 			"queried via IndexSet.MeasurementSeriesByExprIterator (residual Expr, if any, evaluated by the reference); oracle = direct evaluation on each series' tag map with absent tag = ''; " +
 			"non-trivial = the reference selects a non-empty proper subset of the stored m-series (cases distinct by construction)",
 		Assumptions: []string{
@@ -765,7 +777,7 @@ func TestCheck(t *testing.T) {
 			"one series file shared by all indexes of a worker (as shards of one database share it)",
 			"replay rebuilds a fresh index, so a violation that depends on the tag-value cache state left by earlier queries may not reproduce (it is then reported as a harness error, not an alarm); replay runs the query twice (cold and warm cache)",
 		},
-		QuickBudgetS: 45, ThoroughBudgetS: 800,
+		QuickBudgetS: 40, ThoroughBudgetS: 720,
 		Run:    run,
 		Replay: replay,
 	})
@@ -775,11 +787,19 @@ func variantsFor(c *vlib.Ctx, mask int) []string {
 	vs := []string{varLog}
 	if c.Thorough() {
 		vs = append(vs, varTSI)
+		if mask%4 == 1 {
+			vs = append(vs, varLog8)
+		}
 		if mask%4 == 3 {
 			vs = append(vs, varSplit)
 		}
-	} else if mask%8 == 5 {
-		vs = append(vs, varTSI)
+	} else {
+		if mask%8 == 1 {
+			vs = append(vs, varLog8)
+		}
+		if mask%8 == 5 {
+			vs = append(vs, varTSI)
+		}
 	}
 	return vs
 }
@@ -812,8 +832,11 @@ func run(c *vlib.Ctx) {
 		// 16 worker processes share the machine: keep each one's GC / goroutine fan-out small.
 		runtime.GOMAXPROCS(2)
 	}
-	debug.SetGCPercent(400) // the index allocates ~0.4 MB of short-lived roaring containers per query
+	// GC left at the Go default: larger heaps (GOGC>=1600) were measured 4x slower here (page-fault churn of the
+	// ~0.4 MB of short-lived roaring containers the index allocates per query).
+	t0 := time.Now()
 	fam, err := family(c.Thorough())
+	c.Logf("family: %d exprs in %v", len(fam), time.Since(t0))
 	if err != nil {
 		c.HarnessError(err.Error())
 		return
@@ -824,6 +847,7 @@ func run(c *vlib.Ctx) {
 		return
 	}
 	defer w.close()
+	c.Logf("world ready at %v", time.Since(t0))
 	// masks ordered by population count (simplest first)
 	var masks []int
 	for m := 0; m < 512; m++ {
@@ -848,13 +872,19 @@ func run(c *vlib.Ctx) {
 				c.Cap("wall budget reached: not every (series set, variant) unit was explored; explored units are complete over the expression family")
 				return
 			}
+			tu := time.Now()
 			o, err := w.open(mask, variant)
 			if err != nil {
 				c.HarnessError(fmt.Sprintf("cannot build index mask=%d variant=%s: %v", mask, variant, err))
 				continue
 			}
+			topen := time.Since(tu)
 			p, d := vlib.Guard(func() {
-				for _, x := range fam {
+				for xi, x := range fam {
+					if xi%256 == 255 && c.Expired() {
+						c.Cap("wall budget reached inside a (series set, variant) unit: that unit covers only a simplest-first prefix of the expression family")
+						break
+					}
 					n, text := x.n, x.text
 					var v verdict
 					pp, dd := vlib.Guard(func() { v = w.judge(o, mask, n, x.expr) })
@@ -887,7 +917,11 @@ func run(c *vlib.Ctx) {
 					}
 				}
 			})
+			tq := time.Since(tu)
 			o.close()
+			if os.Getenv("C15_TIMING") != "" {
+				c.Logf("unit %d mask=%d %s: open %v, open+queries %v, +close %v", unit, mask, variant, topen, tq, time.Since(tu))
+			}
 			if p {
 				c.HarnessError("enumerator panicked: " + d)
 			}
